@@ -431,14 +431,30 @@ func Arch.String
   ensures [rt] dash1(a.ABI) < 0 && dash1(a.OS) < 0 && a.ABI != "" && a.OS != "" && a.CPU != "" ==> archABI(result) == a.ABI && archOS(result) == a.OS && archCPU(result) == a.CPU
     by { render3(a.ABI, a.OS, a.CPU); render2(a.OS, a.CPU) }
 
+// the pieces between the first two dashes; a name with an empty piece ("", "-amd64", "linux-", "gnu--amd64") is not an
+// architecture name
+pure func npieces(s string) int { dash1(s) < 0 ? 1 : (dash2(s) < 0 ? 2 : 3) }
+pure func piece(s string, i int) string { i == 0 ? (dash1(s) < 0 ? s : s[:dash1(s)]) : (i == 1 ? (dash2(s) < 0 ? s[dash1(s)+1:] : s[dash1(s)+1:dash2(s)]) : s[dash2(s)+1:]) }
+pure func archEmptyPart(s string) bool { piece(s, 0) == "" || (npieces(s) >= 2 && piece(s, 1) == "") || (npieces(s) == 3 && piece(s, 2) == "") }
+
 func parseArchInto
   requires ret != nil
-  ensures result == nil && ret.ABI == archABI(arch) && ret.OS == archOS(arch) && ret.CPU == archCPU(arch)
+  ensures archEmptyPart(arch) ==> result != nil
+  ensures !archEmptyPart(arch) ==> result == nil
+  ensures result == nil ==> ret.ABI == archABI(arch) && ret.OS == archOS(arch) && ret.CPU == archCPU(arch)
+  ensures result != nil ==> ret.ABI == old(ret.ABI) && ret.OS == old(ret.OS) && ret.CPU == old(ret.CPU)
   modifies ret.ABI, ret.OS, ret.CPU
+  loop 1:
+    invariant -1 <= rangeindex && rangeindex < len(flavors) && ranged() == flavors && len(flavors) == npieces(arch)
+    invariant flavors[0] == piece(arch, 0) && (len(flavors) >= 2 ==> flavors[1] == piece(arch, 1)) && (len(flavors) == 3 ==> flavors[2] == piece(arch, 2))
+    invariant (rangeindex >= 0 ==> piece(arch, 0) != "") && (rangeindex >= 1 ==> piece(arch, 1) != "") && (rangeindex >= 2 ==> piece(arch, 2) != "")
+    decreases len(flavors) - rangeindex
 
 func ParseArch
-  ensures result1 == nil && result0 != nil && fresh(result0)
-  ensures result0.ABI == archABI(arch) && result0.OS == archOS(arch) && result0.CPU == archCPU(arch)
+  ensures (result1 != nil) == archEmptyPart(arch)
+  ensures result1 != nil ==> result0 == nil
+  ensures result1 == nil ==> result0 != nil && fresh(result0)
+  ensures result1 == nil ==> result0.ABI == archABI(arch) && result0.OS == archOS(arch) && result0.CPU == archCPU(arch)
 
 func ParseArchitectures
   ensures result1 != nil ==> result0 == nil
@@ -449,7 +465,9 @@ func ParseArchitectures
 // decoding into an existing value gives the same triple as ParseArch, whatever the value held before
 func (*Arch).UnmarshalControl
   requires arch != nil
-  ensures result == nil && arch.ABI == archABI(data) && arch.OS == archOS(data) && arch.CPU == archCPU(data)
+  ensures (result != nil) == archEmptyPart(data)
+  ensures result == nil ==> arch.ABI == archABI(data) && arch.OS == archOS(data) && arch.CPU == archCPU(data)
+  ensures result != nil ==> arch.ABI == old(arch.ABI) && arch.OS == old(arch.OS) && arch.CPU == old(arch.CPU)
   modifies arch.ABI, arch.OS, arch.CPU
 
 // a value xor an error
